@@ -22,6 +22,7 @@ pub trait GroupApi: Copy + Send + 'static {
     fn mul_small(a: Self, n: u64, v: u32) -> Option<Self>;
     fn verify_helper(_q: Self, _r: Self, _s: &[u8], _k: &[u8]) -> Option<bool> { None }
     fn mul128(_a: Self, _u: u128, _w: &[u8], _v: u32) -> Option<Self> { None }
+    fn mul64mu(_a: Self, _u0: u64, _u1: u64, _w: &[u8], _v: u32) -> Option<Self> { None }
     /// byte-string-to-group map (one_way_map) and its input length
     fn map(_b: &[u8]) -> Option<Self> { None }
     fn map_len() -> usize { 0 }
@@ -278,6 +279,30 @@ impl GroupApi for crrl::jq255e::Point {
     }
 }
 
+impl GroupApi for crrl::gls254::Point {
+    const NAME: &'static str = "gls254";
+    const SC_LEN: usize = 32;
+    fn order() -> BigUint { hexn("200000000000000000000000000000003f1a47dedc1a1dad3cbde37cf43a8cf5") }
+    group_common!(crrl::gls254::Point, crrl::gls254::Scalar);
+    mamv_std!(crrl::gls254::Scalar);
+    mul_small_std!();
+    fn encode(&self) -> Vec<u8> { crrl::gls254::Point::encode(*self).to_vec() }
+    fn set_condneg(d: &mut Self, ctl: u32) -> bool { d.set_condneg(ctl); true }
+    fn enc_len() -> usize { 32 }
+    fn mul64mu(a: Self, u0: u64, u1: u64, w: &[u8], v: u32) -> Option<Self> {
+        let sw = crrl::gls254::Scalar::decode_reduce(w);
+        Some(match v & 1 {
+            0 => a.mul64mu_add_mulgen_vartime(u0, u1, &sw),
+            _ => { let mut r = a; r.set_mul64mu_add_mulgen_vartime(u0, u1, &sw); r }
+        })
+    }
+    fn special_encodings() -> Vec<Vec<u8>> {
+        let mut one = vec![0u8; 32]; one[0] = 1;
+        let mut u = vec![0u8; 32]; u[16] = 1;
+        vec![vec![0u8; 32], one, u]
+    }
+}
+
 impl GroupApi for crrl::jq255s::Point {
     const NAME: &'static str = "jq255s";
     const SC_LEN: usize = 32;
@@ -403,6 +428,17 @@ impl<'a, G: GroupApi> Mach<'a, G> {
         let ww = w.to_vec();
         let e = Ev::new("mul128_add_mulgen_vartime").n("a", a as i64).b("u", &trim(&u.to_le_bytes())).b("v", w);
         match guarded(move || G::mul128(x, u, &ww, v)) {
+            Ok(None) => true,
+            Ok(Some(p)) => self.put(dst, e, Ok(p)),
+            Err(m) => self.put(dst, e, Err(m)),
+        }
+    }
+    fn mul64mu(&mut self, dst: usize, a: usize, u0: u64, u1: u64, w: &[u8], v: u32) -> bool {
+        let x = self.regs[a];
+        let ww = w.to_vec();
+        let e = Ev::new("mul64mu_add_mulgen_vartime").n("a", a as i64).b("u0", &trim(&u0.to_le_bytes()))
+            .b("u1", &trim(&u1.to_le_bytes())).b("v", w);
+        match guarded(move || G::mul64mu(x, u0, u1, &ww, v)) {
             Ok(None) => true,
             Ok(Some(p)) => self.put(dst, e, Ok(p)),
             Err(m) => self.put(dst, e, Err(m)),
@@ -756,6 +792,8 @@ fn run_mamv<G: GroupApi>(tr: &mut Trace, rng: &mut Rng, plan: &Plan) {
         let u128s = [0u128, 1, 2, (1u128 << 64) - 1, 1u128 << 64, (1u128 << 127) - 1, 1u128 << 127,
                      (1u128 << 127) + 1, u128::MAX, u128::MAX - 1, ((rng.u64() as u128) << 64) | rng.u64() as u128];
         ok = ok && m.mul128(7, a, *rng.pick(&u128s), &w, i as u32);
+        let u64s = [0u64, 1, 2, (1u64 << 63) - 1, 1u64 << 63, (1u64 << 63) + 1, u64::MAX, u64::MAX - 1, rng.u64(), rng.u64() >> 20];
+        ok = ok && m.mul64mu(7, a, *rng.pick(&u64s), *rng.pick(&u64s), &w, i as u32);
         // verification helper: s*G = R + k*Q.  Q = reg a; pick k (often fraction-shaped k = c0/c1),
         // s random; R := s*G - k*Q computed through the API (so the equation holds), then
         // perturbed variants (R + low-order/special point, R + G) for which it may or may not hold.
@@ -938,6 +976,7 @@ pub fn run(tr: &mut Trace, rng: &mut Rng, grp: &str, what: &str, plan: &Plan) {
         "decaf448" => run_type::<crrl::decaf448::Point>(tr, rng, what, plan),
         "jq255e" => run_type::<crrl::jq255e::Point>(tr, rng, what, plan),
         "jq255s" => run_type::<crrl::jq255s::Point>(tr, rng, what, plan),
+        "gls254" => run_type::<crrl::gls254::Point>(tr, rng, what, plan),
         _ => panic!("unknown group {}", grp),
     }
 }
